@@ -13,13 +13,13 @@ CHECKS = {
  "C02": dict(
    technique="property-based testing with taint markers: generated html/xml programs of the safe-marking-free fragment over tainted context data and literals, validity oracle on the output (no raw < > \" '), plus a metamorphic round trip (unescape(.html rendering) == .txt rendering) on a fragment where captured values are not transformed",
    level="exploration",
-   text="A flow generator sends tainted strings, tainted byte strings (valid and invalid UTF-8) and captured (safe) values through every string/list filter and operator in every argument position, through the contrib filters and globals (wordwrap, truncate, pluralize, joiner, cycler ...) and the Python-style string methods, through macros, call blocks, set/filter blocks, loops, includes, imports and inherited blocks of *.html/*.xml templates; free-mode programs rewritten into the fragment are mixed in. The output must contain none of < > \" '. For programs that only print/pass/store/loop over/join/re-capture captured values, unescaping the html rendering must give exactly the txt rendering (escaped exactly once). Both escaper implementations (speedups off/on).",
+   text="A flow generator sends tainted strings, tainted byte strings (valid and invalid UTF-8) and captured (safe) values through every string/list filter and operator in every argument position, through the contrib filters and globals (wordwrap, truncate, pluralize, joiner, cycler ...) and the Python-style string methods, through macros, call blocks, set/filter blocks, loops, includes, imports and inherited blocks of *.html/*.xml templates; free-mode programs rewritten into the fragment are mixed in. The output must contain none of < > \" '. For programs that only print/pass/store/loop over/join/re-capture captured values, unescaping the html rendering must give exactly the txt rendering (escaped exactly once). Both escaper implementations (speedups off/on). Main templates carry 14 spellings of HTML/XML names (htm, .j2/.jinja suffixes, directories with dots, extension-only names).",
    note="Raw & is not asserted (transforming an already escaped capture legitimately yields &LT; or cut-off entities). Mixed-extension includes are outside the domain.",
    design="3/C02"),
  "C03": dict(
    technique="property-based testing against a reference model: a scope-tracking generator (driven by a proptest byte tape, so programs shrink) emits well-typed programs of the core fragment; an independent reference interpreter of the documented semantics (harness/src/refint.rs) is the oracle for output and error-or-not",
    level="exploration",
-   text="Programs over expressions, if/elif/else, for/else with loop filters, unpacking and every loop.* attribute printed in every loop, set and set-blocks, with, macros with defaults/keyword arguments/caller(), call blocks with parameters, filter blocks and optional break/continue are rendered against 4 contexts of ints, strings, lists and maps. After every scoped construct the generator inserts probes printing `name is defined` and the value for names assigned inside and before it, so scoping is observed, not assumed. A pinned set of hand-written programs (minimal forms of the defects found, documentation shapes) runs first; two enumerated families follow: unpacking assignments whose right-hand side reads the names being assigned (set/with, tuple/list literal, nested targets, in four surroundings) and macros/call blocks declared in a loop body that read a name one iteration assigns.",
+   text="Programs over expressions, if/elif/else, for/else with loop filters, unpacking and every loop.* attribute printed in every loop, set and set-blocks, with, macros with defaults/keyword arguments/caller(), call blocks with parameters, filter blocks and optional break/continue are rendered against 4 contexts of ints, strings, lists and maps. After every scoped construct the generator inserts probes printing `name is defined` and the value for names assigned inside and before it, so scoping is observed, not assumed. A pinned set of hand-written programs (minimal forms of the defects found, documentation shapes) runs first; two enumerated families follow: unpacking assignments whose right-hand side reads the names being assigned (set/with, tuple/list literal, nested targets, in four surroundings) and macros/call blocks declared in a loop body that read a name one iteration assigns. Context strings, list items and generated words include non-ASCII text (characters, not bytes, are what a loop over a string counts).",
    note="The reference interpreter is the assumption: it was written from the documentation, not from the engine, and where the documentation is silent the generator does not go (listed in the evidence assumptions). Programs the interpreter flags as outside its fragment are skipped and counted (label outside_fragment).",
    design="3/C03"),
  "C04": dict(
@@ -68,18 +68,18 @@ CHECKS = {
    technique="property-based testing with process isolation: generated recursive program shapes (cycles over macro / call-block / include (literal, list, list with a missing first entry, ignore missing, computed name) / import edges, recursive loops over deep data and recursive loops that hand themselves the same data again (directly, through an aliased loop object called from a nested loop or with block; a host function counts the levels, so an uncut recursion is a verdict, not a timeout), block self-calls, super() chains, with random non-recursive work per frame) rendered in worker processes of debug and release builds on 2 MiB and 8 MiB threads; outcome oracle (limit error / Ok, never a signal) plus monotonicity in the limit",
    level="exploration",
    text="Each generated shape is rendered with a generated recursion limit in a child process; the child must survive, unbounded shapes must fail with `recursion limit exceeded` somewhere in the cause chain, bounded ones may also succeed, no other error is accepted, and lowering the limit must not make the limit error disappear. Process deaths are attributed to the shape (edge kinds) that was running.",
-   note="One listed finding: block self-recursion and deep super() chains overflow 2 MiB stacks in debug builds (pinned accounting); crash signatures naming the block edge are tolerated, all others are violations.",
+   note="One listed finding: block self-recursion and deep super() chains overflow 2 MiB stacks in debug builds (pinned accounting); crash signatures naming the block edge are tolerated, all others are violations. The engine is built with the full feature set only: a defect confined to a reduced feature set (macros without multi_template; seeded change C11/7) is outside what this check reaches.",
    design="3/C11"),
  "C12": dict(
    technique="property-based testing: metamorphic relation over four configurations (Strict/SemiStrict/Lenient/Chainable renders of the same generated program), plus complete enumeration of the documented site x mode matrix",
    level="exploration",
-   text="Generated programs (free-mode and a mostly-well-typed generator that plants undefined operands in every operand position) are rendered under the four undefined behaviours with a recording context; success under a stricter mode must imply success with byte-identical output under every weaker mode. The documented matrix (print / iterate / truth test / attribute-or-item access / is defined / is undefined / default) is enumerated over 40 syntactic sites x 4 kinds of undefined operand x 4 modes, plus 18 multi-template rows (the same sites after extends where output is discarded, at the top level of imported modules, in included templates, inherited and overriding blocks, call blocks, macro defaults), all of it under the default formatter and under a formatter installed with set_formatter.",
+   text="Generated programs (free-mode and a mostly-well-typed generator that plants undefined operands in every operand position) are rendered under the four undefined behaviours with a recording context; success under a stricter mode must imply success with byte-identical output under every weaker mode. The documented matrix (print / iterate / truth test / attribute-or-item access / is defined / is undefined / default) is enumerated over 40 syntactic sites x 4 kinds of undefined operand x 4 modes, plus 18 multi-template rows (the same sites after extends where output is discarded, at the top level of imported modules, in included templates, inherited and overriding blocks, call blocks, macro defaults), all of it under the default formatter and under a formatter installed with set_formatter. The matrix has `in`/`not in` as first, middle and last link of comparison chains.",
    note="The matrix rows are language sites; individual filters are only covered by the monotonicity relation (their strict-mode behaviour differs between filters and is not documented). debug() is excluded.",
    design="3/C12"),
  "C13": dict(
    technique="property-based testing: threshold oracle by bisection plus exhaustive budgets around the threshold and at the integer extremes, history invariants on fuel_levels, metamorphic additivity of fuel cost",
    level="exploration",
-   text="For generated programs (macros, call blocks, includes, imports, recursive loops, inheritance, failing programs) (also loops that stop long before their iterable ends and programs in which a host callback re-enters the engine through State::render_block or Value::call) the success threshold T is bisected and every budget in [T-40, T+16], sampled budgets below and the extremes up to u64::MAX must give exactly the unlimited outcome (>= T) or an out-of-fuel error (< T); fuel_levels must add up to the budget, equal T-1 and be repeatable; fuel cost must be additive over sequences and linear in the number of nested evaluations.",
+   text="For generated programs (macros, call blocks, includes, imports, recursive loops, inheritance, failing programs) (also loops that stop long before their iterable ends and programs in which a host callback re-enters the engine through State::render_block or Value::call) the success threshold T is bisected and every budget in [T-40, T+16], sampled budgets below and the extremes up to u64::MAX must give exactly the unlimited outcome (>= T) or an out-of-fuel error (< T); fuel_levels must add up to the budget, equal T-1 and be repeatable; fuel cost must be additive over sequences and linear in the number of nested evaluations. Inheritance chains are three templates deep with `super()` on two consecutive levels.",
    note="A budget of 400000 stands in for 'no limit' during bisection; more expensive programs are skipped.",
    design="3/C13"),
  "C14": dict(
@@ -91,7 +91,7 @@ CHECKS = {
  "C15": dict(
    technique="stateful (model-based) property testing: generated operation histories interpreted against the real Environment and an explicit contents model, compared after every step with a freshly built environment; loader-call log as history invariant; concurrent renders sampled",
    level="exploration",
-   text="Histories over add/replace/remove templates in both stores (incl. sources that fail to compile, sources that fail at run time inside open captures), clear_templates, set_loader over a mutable shared store and edits of it, add/remove filter/test/global/function, clone, renders and compile_expression are applied step by step; after every step every template name must render exactly as in a fresh environment built from the model's contents, renders must be repeatable, the loader must not be asked for stored names, clones must keep their contents, and the final environment renders identically from up to 8 threads. A macro, a module macro or a namespace taken out of a finished render is used again on the thread that made it, on a fresh thread and on the calling thread: same outcome everywhere (144 cases, complete).",
+   text="Histories over add/replace/remove templates in both stores (incl. sources that fail to compile, sources that fail at run time inside open captures), clear_templates, set_loader over a mutable shared store and edits of it, add/remove filter/test/global/function, clone, renders and compile_expression are applied step by step; after every step every template name must render exactly as in a fresh environment built from the model's contents, renders must be repeatable, the loader must not be asked for stored names, clones must keep their contents, and the final environment renders identically from up to 8 threads. A macro, a module macro or a namespace taken out of a finished render is used again on the thread that made it, on a fresh thread and on the calling thread: same outcome everywhere (144 cases, complete). Failing renders include one whose host context panics while being serialised (contained); the reference environment is built and rendered on a freshly started thread, so per-thread leftovers show.",
    note="Settings that only affect later-loaded templates are outside the histories. Thread interleavings are sampled.",
    design="3/C15"),
  "C16": dict(
